@@ -239,6 +239,14 @@ def run(pid, tier, seed, replay=None):
                 add("exhaustive-L2", inst, concretise(s, inst))
             for n_, s in enumerate(sim):
                 hm = n_ % 4 != 3
+                if n_ % 7 == 5:
+                    # sympy matrices behind the lazily defined series: history independence of the symbolic path
+                    inst = draw_instance(rng, nb=2, N=2, hermitian_mode=hm)
+                    if inst["d"] <= 4:
+                        add("simulated-L6-sympy" + ("" if hm else "-nonhermitian"), inst,
+                            concretise([x for x in s if x[2] < 2 and x[3] < 2], inst), ncomp=2,
+                            input_kind="lazy_sympy")
+                        continue
                 if n_ % 5 == 4:
                     # opaque algebra elements, pre-blocked lazy series, custom solver
                     inst = draw_instance(rng, nb=3, N=3, hermitian_mode=hm, custom=True)
